@@ -71,7 +71,7 @@ def c04_reason(ctx, shard=0):
 
 
 def _cfg_prefix(tier):
-    K = 12 if tier == 'quick' else 40
+    K = 12 if tier == 'quick' else 24
     out = []
     plan = [('C', 200.0, dict(relative_deg=75.0), 0.0, False), ('D', 20.0, dict(relative_deg=10.0), -1300.0, False),
             ('C', 200.0, dict(relative_deg=-20.0), 0.0, True), ('C', 200.0, dict(relative_deg=95.0), 0.0, False)]      # 95 deg: the projectile moves BACKWARDS (last row is not the farthest)
@@ -88,7 +88,7 @@ def _cfg_prefix(tier):
          must_reach=['check:prefix_identical_to_unlimited_run', 'check:earlier_rows_respect_limits', 'tripped', 'completed'],
          allow_cut=['horizon'],
          bounds='carriers C (75 deg and -20 deg launch), D (300 fps at -1300 ft) [thorough: + vertical launch, D at 5000 ft, A] with coarse integration steps; '
-                'horizon K <= 12 (quick) / 40 (thorough) integration steps; one, or all three, limits symbolic (others disabled); plain and extra-data',
+                'horizon K <= 12 (quick) / 24 (thorough) integration steps; one, or all three, limits symbolic (others disabled); plain and extra-data',
          assumptions=['interpolated rows: speed may undershoot the limit by the chord error of linear interpolation; tolerance 1e-3 relative on the velocity limit for rows before the last'],
          outside=['shots not in the carrier list (covered per step by C04.reason)'])
 def c04_prefix(ctx, carrier, step_ft, kw, altitude_ft, extra, which, K):
